@@ -45,8 +45,20 @@ func ExtractMatrices(M tensor.Tensor, nMatrices, nDimensions, hiddenSize int) ([
 			allSlices[i] = nil
 		}
 
-		m, err := M.Slice(allSlices...)
+		view, err := M.Slice(allSlices...)
 		if err != nil {
+			return nil, err
+		}
+
+		// The tensor library drops sliced dimensions of size 1 (which happens when the
+		// hidden size is 1), hence we restore the expected shape explicitly.
+		m := view.Materialize()
+		if m == tensor.Tensor(view) {
+			m = view.Clone().(tensor.Tensor)
+		}
+
+		shape := append([]int{hiddenSize}, M.Shape()[2:]...)
+		if err := m.Reshape(shape...); err != nil {
 			return nil, err
 		}
 
@@ -54,6 +66,26 @@ func ExtractMatrices(M tensor.Tensor, nMatrices, nDimensions, hiddenSize int) ([
 	}
 
 	return matrices, nil
+}
+
+// ExtractTimeStep returns time step t of X, which has shape (seq_length, batch_size, input_size),
+// as a matrix with shape (batch_size, input_size), also when one or both of those sizes are 1.
+func ExtractTimeStep(X tensor.Tensor, t int) (tensor.Tensor, error) {
+	view, err := X.Slice(NewSlicer(t, t+1), nil, nil)
+	if err != nil {
+		return nil, err
+	}
+
+	Xt := view.Materialize()
+	if Xt == tensor.Tensor(view) {
+		Xt = view.Clone().(tensor.Tensor)
+	}
+
+	if err := Xt.Reshape(X.Shape()[1], X.Shape()[2]); err != nil {
+		return nil, err
+	}
+
+	return Xt, nil
 }
 
 // ZeroTensor returns a tensor filled with zeros with the given shape.
